@@ -1,0 +1,109 @@
+//! Observability hooks for the runtime monitors that live outside of this repository.
+//! This module only exists when building with `--cfg raqote_verif`; nothing in here
+//! changes what gets drawn.
+
+use std::sync::atomic::{AtomicU64, Ordering};
+
+/// The places that report that they were reached through `hit()`.
+pub const SITES: &[&str] = &[
+    "shader:Solid",
+    "shader:ImagePadAlpha",
+    "shader:ImageRepeatAlpha",
+    "shader:TransformedNearestPadImageAlpha",
+    "shader:TransformedNearestRepeatImageAlpha",
+    "shader:TransformedPadImageAlpha",
+    "shader:TransformedRepeatImageAlpha",
+    "shader:TransformedPadImage",
+    "shader:TransformedRepeatImage",
+    "shader:TransformedNearestPadImage",
+    "shader:TransformedNearestRepeatImage",
+    "shader:RadialGradient",
+    "shader:TwoCircleRadialGradient",
+    "shader:LinearGradient",
+    "shader:SweepGradient",
+    "blitter:ShaderBlendMaskBlitter",
+    "blitter:ShaderClipBlendMaskBlitter",
+    "blitter:ShaderMaskBlitter",
+    "blitter:ShaderClipMaskBlitter",
+    "blitter:ShaderBlendBlitter",
+    "add_edge:line",
+    "add_edge:curve",
+    "add_edge:dropped_above_or_below",
+    "add_edge:dropped_horizontal",
+    "add_edge:starts_above_surface",
+    "add_edge:dropped_after_stepping",
+    "scan_edges:skipped_left_of_surface",
+    "scan_edges:stopped_right_of_surface",
+    "reset:nothing_added",
+    "reset:cleared",
+    "fill_rect:fast_path",
+    "fill_rect:path",
+    "clear:fast_path",
+    "clear:path",
+    "composite:singular_transform",
+    "composite:empty_rect",
+    "composite:draws",
+    "add_quad:chopped",
+    "add_quad:forced_monotonic",
+    "add_quad:monotonic",
+];
+
+pub const SHADER_BASE: usize = 0;
+pub const BLITTER_BASE: usize = 15;
+pub const ADD_EDGE_LINE: usize = 20;
+pub const ADD_EDGE_CURVE: usize = 21;
+pub const ADD_EDGE_DROPPED_ABOVE_OR_BELOW: usize = 22;
+pub const ADD_EDGE_DROPPED_HORIZONTAL: usize = 23;
+pub const ADD_EDGE_STARTS_ABOVE: usize = 24;
+pub const ADD_EDGE_DROPPED_AFTER_STEPPING: usize = 25;
+pub const SCAN_SKIPPED_LEFT: usize = 26;
+pub const SCAN_STOPPED_RIGHT: usize = 27;
+pub const RESET_NOTHING_ADDED: usize = 28;
+pub const RESET_CLEARED: usize = 29;
+pub const FILL_RECT_FAST: usize = 30;
+pub const FILL_RECT_PATH: usize = 31;
+pub const CLEAR_FAST: usize = 32;
+pub const CLEAR_PATH: usize = 33;
+pub const COMPOSITE_SINGULAR: usize = 34;
+pub const COMPOSITE_EMPTY: usize = 35;
+pub const COMPOSITE_DRAWS: usize = 36;
+pub const ADD_QUAD_CHOPPED: usize = 37;
+pub const ADD_QUAD_FORCED: usize = 38;
+pub const ADD_QUAD_MONOTONIC: usize = 39;
+
+const N: usize = 40;
+#[allow(clippy::declare_interior_mutable_const)]
+const ZERO: AtomicU64 = AtomicU64::new(0);
+static HITS: [AtomicU64; N] = [ZERO; N];
+
+#[inline]
+pub fn hit(site: usize) {
+    HITS[site].fetch_add(1, Ordering::Relaxed);
+}
+
+/// How often each of `SITES` was reached in this process so far.
+pub fn hits() -> Vec<u64> {
+    HITS.iter().map(|h| h.load(Ordering::Relaxed)).collect()
+}
+
+/// Counts an iteration of a loop whose number of iterations is bounded by its inputs
+/// and panics when the bound is exceeded, so that a loop that stopped making progress
+/// shows up as a recognisable panic instead of a hang.
+#[inline]
+pub fn tick(site: &str, count: &mut u64, limit: u64) {
+    *count += 1;
+    if *count > limit {
+        panic!("raqote_verif: no progress in {}: more than {} iterations", site, limit);
+    }
+}
+
+/// What `DrawTarget::verif_state()` reports.
+#[derive(Clone, Copy, Debug, PartialEq)]
+pub struct State {
+    /// no edges queued or active and the bounds are at their reset values
+    pub rasterizer_idle: bool,
+    /// the path cursor (current point, first point) holds no point
+    pub cursor_empty: bool,
+    pub clip_depth: usize,
+    pub layer_depth: usize,
+}
